@@ -5,7 +5,9 @@ package main
 import (
 	"go/ast"
 	"go/token"
+	"sort"
 	"strconv"
+	"strings"
 )
 
 func init() { register("C01", factsC01) }
@@ -115,6 +117,162 @@ func factsC01(r *Repo) []Fact {
 		out = append(out, unknownFact("needAllIsNotEager", "Bool", "false", "compose/graph_run.go initTaskManager", "needAll field not found"))
 	} else {
 		out = append(out, boolFact("needAllIsNotEager", needAll, "compose/graph_run.go initTaskManager: needAll: !r.eager"))
+	}
+	out = append(out, c01BuilderFacts(cp)...)
+	return out
+}
+
+// ---- Append* leave the builder objects they are given intact (shared builders family) ----
+
+// c01Root: the identifier an addressable expression is rooted at (x in x.f, x.f[i], *x, (x).f).
+func c01Root(e ast.Expr) string {
+	for {
+		switch v := e.(type) {
+		case *ast.Ident:
+			return v.Name
+		case *ast.SelectorExpr:
+			e = v.X
+		case *ast.IndexExpr:
+			e = v.X
+		case *ast.StarExpr:
+			e = v.X
+		case *ast.ParenExpr:
+			e = v.X
+		default:
+			return ""
+		}
+	}
+}
+
+// c01BuilderUse inspects method `name` of Chain: `param` is its parameter of type *typ.
+// writes: assignments / inc-dec whose left side is rooted at the parameter or at a local that
+// aliases (part of) it (defined from an expression rooted at the parameter that is not a `*x` copy);
+// methods: selectors on the parameter that are not fields of the struct; closureReads: selectors on
+// the parameter inside function literals (what an installed closure still reads at run time).
+func c01BuilderUse(cp *Pkg, name, typ string) (found bool, file string, writes, methods, closureReads []string) {
+	fd, file := cp.Func("Chain", name)
+	if fd == nil || fd.Type.Params == nil {
+		return false, "", nil, nil, nil
+	}
+	param := ""
+	for _, f := range fd.Type.Params.List {
+		if st, ok := f.Type.(*ast.StarExpr); ok && exprString(st.X) == typ && len(f.Names) == 1 {
+			param = f.Names[0].Name
+		}
+	}
+	if param == "" {
+		return false, file, nil, nil, nil
+	}
+	fields := map[string]bool{}
+	for _, n := range cp.Names {
+		ast.Inspect(cp.Files[n], func(x ast.Node) bool {
+			ts, ok := x.(*ast.TypeSpec)
+			if !ok || ts.Name.Name != typ {
+				return true
+			}
+			if st, ok := ts.Type.(*ast.StructType); ok {
+				for _, f := range st.Fields.List {
+					for _, id := range f.Names {
+						fields[id.Name] = true
+					}
+				}
+			}
+			return false
+		})
+	}
+	aliases := map[string]bool{param: true}
+	// two passes: an alias of an alias
+	for pass := 0; pass < 2; pass++ {
+		ast.Inspect(fd.Body, func(x ast.Node) bool {
+			as, ok := x.(*ast.AssignStmt)
+			if !ok || len(as.Lhs) != len(as.Rhs) {
+				return true
+			}
+			for i, rhs := range as.Rhs {
+				if u, isAddr := rhs.(*ast.UnaryExpr); isAddr && u.Op == token.AND {
+					rhs = u.X
+				} else if _, isCopy := rhs.(*ast.StarExpr); isCopy {
+					continue
+				}
+				if id, ok := as.Lhs[i].(*ast.Ident); ok && aliases[c01Root(rhs)] && c01Root(rhs) != "" {
+					aliases[id.Name] = true
+				}
+			}
+			return true
+		})
+	}
+	seenW, seenM, seenC := map[string]bool{}, map[string]bool{}, map[string]bool{}
+	note := func(lhs ast.Expr) {
+		if _, plain := lhs.(*ast.Ident); plain {
+			return // rebinding a local, not a write through it
+		}
+		if r := c01Root(lhs); r != "" && aliases[r] {
+			seenW[exprString(lhs)] = true
+		}
+	}
+	var walk func(n ast.Node, inLit bool)
+	walk = func(n ast.Node, inLit bool) {
+		ast.Inspect(n, func(x ast.Node) bool {
+			switch v := x.(type) {
+			case *ast.FuncLit:
+				if !inLit {
+					walk(v.Body, true)
+					return false
+				}
+			case *ast.AssignStmt:
+				for _, l := range v.Lhs {
+					note(l)
+				}
+			case *ast.IncDecStmt:
+				note(v.X)
+			case *ast.SelectorExpr:
+				if id, ok := v.X.(*ast.Ident); ok && id.Name == param {
+					if !fields[v.Sel.Name] {
+						seenM[v.Sel.Name] = true
+					}
+					if inLit {
+						seenC[v.Sel.Name] = true
+					}
+				}
+			}
+			return true
+		})
+	}
+	walk(fd.Body, false)
+	keys := func(m map[string]bool) []string {
+		out := []string{}
+		for k := range m {
+			out = append(out, k)
+		}
+		sort.Strings(out)
+		return out
+	}
+	return true, file, keys(seenW), keys(seenM), keys(seenC)
+}
+
+func c01BuilderFacts(cp *Pkg) []Fact {
+	var out []Fact
+	for _, q := range []struct{ fact, method, typ string }{
+		{"appendBranchLeavesBuilderIntact", "AppendBranch", "ChainBranch"},
+		{"appendParallelLeavesBuilderIntact", "AppendParallel", "Parallel"},
+	} {
+		found, file, writes, methods, reads := c01BuilderUse(cp, q.method, q.typ)
+		if !found {
+			out = append(out, unknownFact(q.fact, "Bool", "false", "compose/chain.go Chain."+q.method, "method or its *"+q.typ+" parameter not found"))
+			if q.method == "AppendBranch" {
+				out = append(out, Fact{Name: "appendBranchClosureReads", Type: "String", Value: leanStr("?"), Where: "compose/chain.go"})
+			}
+			continue
+		}
+		where := "compose/" + file + " Chain." + q.method + ": no assignment through the *" + q.typ + " parameter (or a local aliasing it), no method called on it"
+		if len(writes)+len(methods) > 0 {
+			where += "; found writes [" + strings.Join(writes, " ") + "] methods [" + strings.Join(methods, " ") + "]"
+		}
+		out = append(out, boolFact(q.fact, len(writes) == 0 && len(methods) == 0, where))
+		if q.method == "AppendBranch" {
+			out = append(out, Fact{Name: "appendBranchClosureReads", Type: "String", Value: leanStr(strings.Join(reads, ",")),
+				Where: "compose/" + file + " Chain.AppendBranch: what the closures installed on the lowered branch still read from the *ChainBranch at run time"})
+		}
 	}
 	return out
 }
